@@ -136,6 +136,9 @@ func c06Reader() {
 			for sig == g.Signature {
 				copy(g.Signature[:], genBytes(6))
 			}
+			if dsim.Choose(2) == 1 {
+				g.Timestamp += uint64(1_000_001 + dsim.Choose(2_000_000_000)) // forged and dated ahead
+			}
 			b = g.Encode()
 			count("fault:forged-signature")
 		case 6: // re-stamped: timestamp or link id changed after signing
